@@ -1,9 +1,11 @@
 package main
 
 import (
+	"fmt"
 	"go/token"
 	"go/types"
 	"math/big"
+	"os"
 	"sort"
 	"strings"
 
@@ -1681,6 +1683,18 @@ func variadicInts(v ssa.Value) []ssa.Value {
 
 // ---- R-C01-5: the stored ETag is the MD5 of the bytes that were written ---------------------------------
 
+// descNoZero: descOf without the zero value of an error path (a struct returned empty next to an error).
+func descNoZero(v ssa.Value) string {
+	var rs []Root
+	for _, rt := range terminalRoots(Origins(v, nil)) {
+		if rt.Kind == "const" && (rt.Desc == "zero" || rt.Desc == "nil") {
+			continue
+		}
+		rs = append(rs, rt)
+	}
+	return rootsDesc(rs)
+}
+
 func moreETagProvenance(p *Program, r *Report) {
 	rule := "R-C01-5"
 	if r.Prop == "C08" {
@@ -1737,7 +1751,7 @@ func moreETagProvenance(p *Program, r *Report) {
 			// the TeeReader feeding this hash
 			var tees []ssa.CallInstruction
 			for _, tc := range callsTo(f, "io.TeeReader") {
-				if descOf(callArgs(tc)[1]) == descOf(h) {
+				if descNoZero(callArgs(tc)[1]) == descNoZero(h) {
 					tees = append(tees, tc)
 				}
 			}
@@ -1763,6 +1777,15 @@ func moreETagProvenance(p *Program, r *Report) {
 							}
 						}
 					}
+				}
+			}
+			if os.Getenv("VGW_DEBUG") != "" {
+				fmt.Fprintf(os.Stderr, "%s %s: tees=%d copies=%d fed=%v hdesc=%s\n", rule, k, len(tees), len(copies), fed, descOf(h))
+				for _, tc := range callsTo(f, "io.TeeReader") {
+					fmt.Fprintf(os.Stderr, "   tee arg desc=%s\n", descOf(callArgs(tc)[1]))
+				}
+				for _, cc := range copies {
+					fmt.Fprintf(os.Stderr, "   copy src roots=%s\n", rootsDesc(Origins(callArgs(cc)[1], through)))
 				}
 			}
 			r.Check(len(tees) > 0 && fed, rule, k+":hash-sees-written-bytes", p.Pos(sm.Pos()), "the copied reader is the TeeReader of this hash", "the bytes copied into the temp file do not pass through the TeeReader that feeds the ETag's hash: the stored ETag is not the MD5 of the stored bytes")
